@@ -39,9 +39,10 @@ func loadKnown(path string) *KnownFile {
 func (kf *KnownFile) match(prop, obl string) *KnownFinding {
 	for i := range kf.Findings {
 		f := &kf.Findings[i]
-		if f.Property != prop || f.Status == "fixed" {
+		if f.Status == "fixed" {
 			continue
 		}
+		_ = prop // an obligation shared by several properties is the same finding in each of them
 		if strings.HasPrefix(f.Obligation, "re:") {
 			if ok, _ := regexp.MatchString(f.Obligation[3:], obl); ok {
 				return f
@@ -150,6 +151,8 @@ func runCheck(eng *Engine, o checkOpts, t0 time.Time) int {
 	if o.tier != "thorough" {
 		skipObligation = func(name string) bool { _, ok := matchUndecided(undec0, name); return ok }
 	}
+	known0 := loadKnown(filepath.Join(verifHome, "known_findings.json"))
+	shortObligation = func(name string) bool { return known0.match(o.prop, name) != nil }
 	tSolve := time.Now()
 	ds := dischargeAll(results, filepath.Join(outDir, "smt"), timeout, workers)
 	solveS := time.Since(tSolve).Seconds()
